@@ -219,4 +219,173 @@ theorem loopX_raise_eq_loop' (kids : Entry → List (Rat × Nat)) (raises : Entr
           · rw [loop_cons_trace hq ht]; simp only [next, hk]; rw [← this]
       · simp [loopX, hq, ht] at h
 
+/-! ### Re-entrant `evolve_until` (`loopR`, round 6) -/
+
+theorem eps_nonneg' : (0 : Rat) ≤ eps := by unfold eps; norm_num
+
+theorem loopR_plain' (kids : Entry → List (Rat × Nat)) (T : Rat) (fuel : Nat) (s : Sys) :
+    loopR (plainBody kids) T fuel s = loop kids T fuel s := by
+  induction fuel generalizing s with
+  | zero => simp [loopR, loop]
+  | succ fuel ih =>
+    match hq : s.queue with
+    | [] => simp only [loopR, loop, hq]
+    | e :: rest =>
+      by_cases ht : e.time < T
+      · simp only [loopR, loop, hq, ht, if_true, plainBody, addAll, ih]
+      · simp only [loopR, loop, hq, ht, if_false]
+
+theorem advance_le_of_le (s : Sys) (τ B : Rat) (h1 : s.t ≤ B) (h2 : τ ≤ B) :
+    (advance s (τ - s.t)).1.t ≤ B := by
+  unfold advance; split
+  · simp; exact h2
+  · exact h1
+
+theorem advance_ge_sub_eps (s : Sys) (τ : Rat) : τ - eps ≤ (advance s (τ - s.t)).1.t := by
+  unfold advance; split
+  · have := eps_nonneg'; simp; linarith
+  · rename_i h; simp at h ⊢; linarith
+
+theorem loopR_tiles' (acts : Entry → Body) (T : Rat) (fuel : Nat) (s : Sys) :
+    sumDt (loopR acts T fuel s).trace = (loopR acts T fuel s).s.t - s.t := by
+  induction fuel generalizing s T with
+  | zero => simp [loopR, sumDt]
+  | succ fuel ih =>
+    match hq : s.queue with
+    | [] => simp only [loopR, hq]; exact advance_sumDt s _
+    | e :: rest =>
+      by_cases ht : e.time < T
+      · have ha := advance_sumDt { s with queue := rest } (e.time - s.t)
+        simp only at ha
+        cases hn : (acts e).nested with
+        | none =>
+          simp only [loopR, hq, ht, if_true, hn, sumDt_append, sumDt, ih, addAll_t]
+          linarith
+        | some T2 =>
+          by_cases hb : T2 < (advance { s with queue := rest } (e.time - s.t)).1.t
+          · simp only [loopR, hq, ht, if_true, hn, hb, sumDt_append, sumDt, addAll_t]
+            linarith
+          · by_cases hok : (loopR acts T2 fuel (addAll (advance { s with queue := rest } (e.time - s.t)).1 (acts e).pre)).status = .ok
+            · simp only [loopR, hq, ht, if_true, hn, hb, if_false, hok, sumDt_append, sumDt, ih, addAll_t]
+              linarith
+            · simp only [loopR, hq, ht, if_true, hn, hb, if_false, hok, sumDt_append, sumDt, ih, addAll_t]
+              linarith
+      · simp only [loopR, hq, ht, if_false]; exact advance_sumDt s _
+
+theorem loopR_clock_ge' (acts : Entry → Body) (T : Rat) (fuel : Nat) (s : Sys)
+    (h : (loopR acts T fuel s).status = .ok) : T - eps ≤ (loopR acts T fuel s).s.t := by
+  induction fuel generalizing s T with
+  | zero => simp [loopR] at h
+  | succ fuel ih =>
+    match hq : s.queue with
+    | [] => simp only [loopR, hq]; exact advance_ge_sub_eps s T
+    | e :: rest =>
+      by_cases ht : e.time < T
+      · cases hn : (acts e).nested with
+        | none =>
+          simp only [loopR, hq, ht, if_true, hn] at h ⊢
+          exact ih _ _ h
+        | some T2 =>
+          by_cases hb : T2 < (advance { s with queue := rest } (e.time - s.t)).1.t
+          · simp [loopR, hq, ht, hn, hb, addAll_t] at h
+          · by_cases hok : (loopR acts T2 fuel (addAll (advance { s with queue := rest } (e.time - s.t)).1 (acts e).pre)).status = .ok
+            · simp only [loopR, hq, ht, if_true, hn, addAll_t, hb, if_false, hok] at h ⊢
+              exact ih _ _ h
+            · simp only [loopR, hq, ht, if_true, hn, addAll_t, hb, if_false, hok] at h
+      · simp only [loopR, hq, ht, if_false]; exact advance_ge_sub_eps s T
+
+theorem loopR_clock_le' (acts : Entry → Body) (B : Rat)
+    (hB : ∀ e T2, (acts e).nested = some T2 → T2 ≤ B) (T : Rat) (fuel : Nat) (s : Sys)
+    (hT : T ≤ B) (hs : s.t ≤ B) : (loopR acts T fuel s).s.t ≤ B := by
+  induction fuel generalizing s T with
+  | zero => simpa [loopR] using hs
+  | succ fuel ih =>
+    match hq : s.queue with
+    | [] => simp only [loopR, hq]; exact advance_le_of_le s T B hs hT
+    | e :: rest =>
+      by_cases ht : e.time < T
+      · have ha : (advance { s with queue := rest } (e.time - s.t)).1.t ≤ B :=
+          advance_le_of_le { s with queue := rest } e.time B hs (by linarith)
+        cases hn : (acts e).nested with
+        | none =>
+          simp only [loopR, hq, ht, if_true, hn]
+          exact ih _ _ hT (by simpa only [addAll_t] using ha)
+        | some T2 =>
+          have h2 := hB e T2 hn
+          by_cases hb : T2 < (advance { s with queue := rest } (e.time - s.t)).1.t
+          · simp only [loopR, hq, ht, if_true, hn, hb, addAll_t]; exact ha
+          · have hnn := ih T2 (addAll (advance { s with queue := rest } (e.time - s.t)).1 (acts e).pre) h2
+              (by simpa only [addAll_t] using ha)
+            by_cases hok : (loopR acts T2 fuel (addAll (advance { s with queue := rest } (e.time - s.t)).1 (acts e).pre)).status = .ok
+            · simp only [loopR, hq, ht, if_true, hn, addAll_t, hb, if_false, hok]
+              exact ih _ _ hT (by simpa only [addAll_t] using hnn)
+            · simp only [loopR, hq, ht, if_true, hn, addAll_t, hb, if_false, hok]
+              exact hnn
+      · simp only [loopR, hq, ht, if_false]; exact advance_le_of_le s T B hs hT
+
+/-! ### Raising at once with clock-reading callbacks (`loopXC`, round 6) -/
+
+theorem loopXC_entry_only' (kids : Entry → List (Rat × Nat)) (raises : Entry → Bool) (T : Rat)
+    (fuel : Nat) (s : Sys) : loopXC (fun _ => kids) raises T fuel s = loopX kids raises T fuel s := by
+  induction fuel generalizing s with
+  | zero => simp [loopXC, loopX]
+  | succ fuel ih =>
+    match hq : s.queue with
+    | [] => simp only [loopXC, loopX, hq]
+    | e :: rest =>
+      by_cases ht : e.time < T
+      · simp only [loopXC, loopX, hq, ht, if_true, ih]
+      · simp only [loopXC, loopX, hq, ht, if_false]
+
+theorem loopXC_raisedAt_raises (kidsC : Rat → Entry → List (Rat × Nat)) (raises : Entry → Bool) (T : Rat)
+    (fuel : Nat) (s : Sys) (e : Entry) (h : (loopXC kidsC raises T fuel s).raisedAt = some e) :
+    raises e = true := by
+  induction fuel generalizing s with
+  | zero => simp [loopXC] at h
+  | succ fuel ih =>
+    match hq : s.queue with
+    | [] => simp [loopXC, hq] at h
+    | x :: rest =>
+      by_cases ht : x.time < T
+      · by_cases hr : raises x = true
+        · simp only [loopXC, hq, ht, if_true, hr] at h
+          cases h; exact hr
+        · simp only [loopXC, hq, ht, if_true, hr, Bool.false_eq_true, if_false] at h
+          exact ih _ h
+      · simp [loopXC, hq, ht] at h
+
+theorem loopXC_raise_eq_loopC' (kidsC : Rat → Entry → List (Rat × Nat)) (raises : Entry → Bool) (T : Rat)
+    (fuel : Nat) (s : Sys) (e : Entry) (h : (loopXC kidsC raises T fuel s).raisedAt = some e) :
+    (loopXC kidsC raises T fuel s).run =
+      loopC (kidsExceptC kidsC e) T (fired (loopXC kidsC raises T fuel s).run.trace).length s := by
+  have hre := loopXC_raisedAt_raises kidsC raises T fuel s e h
+  induction fuel generalizing s with
+  | zero => simp [loopXC] at h
+  | succ fuel ih =>
+    match hq : s.queue with
+    | [] => simp [loopXC, hq] at h
+    | x :: rest =>
+      by_cases ht : x.time < T
+      · by_cases hr : raises x = true
+        · simp only [loopXC, hq, ht, if_true, hr] at h ⊢
+          cases h
+          have hl : (fired ((advance { s with queue := rest } (e.time - s.t)).2 ++
+              [Event.fire e (advance { s with queue := rest } (e.time - s.t)).1.t])).length = 1 := by
+            rw [fired_append, fired_advance]; simp [fired]
+          rw [hl]
+          simp [loopC, hq, ht, kidsExceptC, addAll]
+        · have hx : x ≠ e := by rintro rfl; exact hr hre
+          simp only [loopXC, hq, ht, if_true, hr, Bool.false_eq_true, if_false] at h ⊢
+          have := ih _ h
+          have hl : (fired ((advance { s with queue := rest } (x.time - s.t)).2 ++
+              Event.fire x (advance { s with queue := rest } (x.time - s.t)).1.t ::
+                (loopXC kidsC raises T fuel (addAll (advance { s with queue := rest } (x.time - s.t)).1 (kidsC (advance { s with queue := rest } (x.time - s.t)).1.t x))).run.trace)).length =
+              (fired (loopXC kidsC raises T fuel (addAll (advance { s with queue := rest } (x.time - s.t)).1 (kidsC (advance { s with queue := rest } (x.time - s.t)).1.t x))).run.trace).length + 1 := by
+            rw [fired_append, fired_advance]; simp [fired]
+          rw [hl]
+          have hk : ∀ clk, kidsExceptC kidsC e clk x = kidsC clk x := by intro clk; simp [kidsExceptC, hx]
+          simp only [loopC, hq, ht, if_true, hk]
+          rw [← this]
+      · simp [loopXC, hq, ht] at h
+
 end HcipyVerif.Scheduler
